@@ -274,9 +274,14 @@ class C19(F.PropCheck):
         last_sent stamp, timer1_cb t1."""
         cfg = [1, 0, 0, 1, 0, 0, 0, 3000, 3000, 0, 0, 2000, 2000, 0, 0, 0]
         evs = []; T = rng.choice([10, 10, 15]); t = self.preamble(evs, timeout=T); marks = []; rr = 2
-        for _ in range(rng.choice([8, 12, 16])):
+        nloops = rng.choice([16, 20, 24])
+        for j in range(nloops):
             dt = rng.choice([2000000, 3000000, 4000000]); evs.append(('ADV', [dt], b'')); t += dt
-            evs.append(('SRV', [50, rr], bytes(16))); rr += 1; marks.append(t + 500000)
+            evs.append(('SRV', [50, rr], bytes(16))); rr += 1
+            if j < nloops // 3: marks.append(t + 500000)      # the wrap early: several ping periods must follow it
+            # the next espconn_sent answers ESPCONN_INPROGRESS: the frame is staged and flushed by a later data_write (the other
+            # place where last_sent is stamped)
+            if rng.random() < 0.5: evs.append(('SENTRES', [-5], b''))        # ESPCONN_INPROGRESS
         evs.append(('ADV', [3000000], b'')); t += 3000000
         return self.finish(rng, cid, cfg, evs, marks, t, ['dev', 'dev:server-chatty'])
 
